@@ -456,7 +456,7 @@ func c06Run(w *fw.W, b fw.Batch) {
 func init() {
 	fw.Register(&fw.Prop{
 		ID: "C06", Level: "exploration",
-		Rule:        "G goroutines each run T generated transactions on ONE shared WAF (rules with several target exclusions extended at run time by ctl:ruleRemoveTargetById, shared transformation chains, @rx/@pm/@restpath/@validateNid patterns, captures, setenv, serial or concurrent audit writer) while builder goroutines construct, probe and close other WAFs that share the same pattern strings; in every round 8 WAFs introducing never-seen transformation chains are also constructed at the same moment and probed against the reference model; under the Go race detector (-race, which also enables checkptr), GOMAXPROCS in {2,4,16}, with seeded Gosched/sleep yields injected at the pattern cache, the transaction pool and the transformation-id table. Monitors: race/fatal reports (de-duplicated by conflicting coraza frames), per-transaction differential against the outcome computed sequentially beforehand, pattern-cache owner invariant at quiescent points. Non-trivial: a concurrent transaction with more than one fired rule that was compared; distinct by (request, position, round).",
+		Rule:        "G goroutines each run T generated transactions on ONE shared WAF (rules with several target exclusions extended at run time by ctl:ruleRemoveTargetById, shared transformation chains, @rx/@pm/@restpath/@validateNid patterns, captures, setenv; serial or concurrent audit writer, auditing configured On or configured Off and switched on per transaction by ctl:auditEngine) and on a SECOND WAF built from the same configuration and sharing the audit log target, while builder goroutines construct, probe and close other WAFs that share the same pattern strings; in every round 8 WAFs introducing never-seen transformation chains are also constructed at the same moment and probed against the reference model; under the Go race detector (-race, which also enables checkptr), GOMAXPROCS in {2,4,16}, with seeded Gosched/sleep yields injected at the pattern cache, the transaction pool, the transformation-id table and between the lines of a concurrent audit index entry. Monitors: race/fatal reports (de-duplicated by conflicting coraza frames), per-transaction differential against the outcome computed sequentially beforehand, pattern-cache owner invariant at quiescent points; audit-log judge at the quiescent point after every concurrent phase (serial: exactly one intact JSON record with a distinct transaction id per audited transaction; concurrent: exactly one intact index entry per audited transaction naming a file that holds one JSON record). Non-trivial: a concurrent transaction with more than one fired rule that was compared; distinct by (request, position, round).",
 		Assumptions: []string{"a clean race-detector run covers only the accesses executed under the schedules that occurred", "transactions whose sequential outcome is not stable over three runs are excluded from the differential (C04's business)"},
 		Required:    []string{"concurrently_constructed_wafs_probed", "concurrent_transactions", "builder_wafs_built_and_closed", "snapshot_checks", "audit_records_checked", "yield_site:auditlog.concurrent.index", "yields_taken", "yield_site:pool.get", "yield_site:memo.do.afterLoad", "yield_site:tid.lock"},
 		Plan: func(tier fw.Tier, seed int64) []fw.Batch {
